@@ -9,6 +9,8 @@ require (
 	github.com/wk8/go-ordered-map/v2 v2.1.8
 	golang.org/x/crypto v0.38.0
 	google.golang.org/protobuf v1.36.6
+	lukechampine.com/blake3 v1.2.1
+	modernc.org/mathutil v1.6.0
 )
 
 require (
@@ -115,9 +117,7 @@ require (
 	golang.org/x/text v0.25.0 // indirect
 	gopkg.in/ini.v1 v1.67.0 // indirect
 	gopkg.in/yaml.v3 v3.0.1 // indirect
-	lukechampine.com/blake3 v1.2.1 // indirect
 	lukechampine.com/uint128 v1.3.0 // indirect
-	modernc.org/mathutil v1.6.0 // indirect
 )
 
 replace github.com/dominant-strategies/go-quai => /repo
